@@ -2,3 +2,17 @@
     spec fn hd(&self) -> RawMap { self.sd_jwt_engine.hash_to_disclosure@ }
     // representation invariant established by SDJWTHolder::new (create_hash_mappings): both digest maps have the same keys
     spec fn inv(&self) -> bool { self.sd_jwt_engine.hash_to_disclosure@.dom() == self.sd_jwt_engine.hash_to_decoded_disclosure@.dom() }
+    // what a presentation never changes: the parsed SD-JWT and its digest maps
+    spec fn core_eq(&self, o: &Self) -> bool {
+        self.sd_jwt_engine == o.sd_jwt_engine && self.sd_jwt_payload == o.sd_jwt_payload && self.serialized_sd_jwt == o.serialized_sd_jwt && self.sd_jwt_json == o.sd_jwt_json
+    }
+    spec fn kb_ok(&self, nonce: Seq<char>, aud: Seq<char>, key: EncodingKey, sign_alg: Option<String>) -> bool {
+        let t = self.serialized_key_binding_jwt@;
+        jsonwebtoken::well_formed(t) && jsonwebtoken::signed_with(t, key)
+            // the default algorithm comes out of an un-annotated closure (`unwrap_or_else(|| ...)`): only the explicit case is stated
+            && (sign_alg is Some ==> jsonwebtoken::alg_of_str(sign_alg->Some_0@) == Some(jsonwebtoken::hdr_of(t).alg))
+            && jsonwebtoken::hdr_of(t).typ is Some && jsonwebtoken::hdr_of(t).typ->Some_0@ == "kb+jwt"@
+            && j_get(jsonwebtoken::claims_of(t), "nonce"@) == Some(J::Str(nonce))
+            && j_get(jsonwebtoken::claims_of(t), "aud"@) == Some(J::Str(aud))
+            && j_get(jsonwebtoken::claims_of(t), "sd_hash"@) == Some(J::Str(sd_hash_spec(self.serialized_sd_jwt@, strs(self.hs_disclosures@))))
+    }
